@@ -79,6 +79,10 @@ pub struct TextSpec {
     pub inline_wide: bool,
     /// spell include paths as "./name" (the same file, written differently)
     pub dotted: bool,
+    /// preprocessor: the file defines a macro of its own and guards declarations with
+    /// #ifdef / #ifndef on its own macro and on the macro of file `a` (macros do not cross file
+    /// boundaries in this implementation, so the latter is a region that must stay disabled)
+    pub pp: bool,
     /// trailing blanks and a comment after statements (trivia after the last token)
     pub trail: bool,
     /// the text does not end with a line break
@@ -119,6 +123,9 @@ impl TextSpec {
                 s.push_str(&format!("include \"{inc}\"{e}"));
             }
         }
+        if self.pp {
+            s.push_str(&format!("#define F_{k}{e}"));
+        }
         s.push_str(&format!("class V_{n:04};{e}"));
         if self.inline_wide {
             s.push_str(&format!(
@@ -130,6 +137,12 @@ impl TextSpec {
         }
         s.push_str(&format!("// doc of T_{k} {}{e}class T_{k}<int p> {{ int q = p; }}{e}", wide(self.alphabet, n + 1)));
         s.push_str(&format!("def D_{k} : K_{k};{e}"));
+        if self.pp {
+            s.push_str(&format!("#ifdef F_{k}{e}def PD_{k} : K_{k};{e}#else{e}def PE_{k} : K_{k};{e}#endif{e}"));
+            let other = if k == "a" { "b" } else { "a" };
+            s.push_str(&format!("#ifdef F_{other}{e}def PX_{k} : K_{k};{e}#endif{e}"));
+            s.push_str(&format!("#ifndef F_{other}{e}def PN_{k} : K_{k};{e}#endif{e}"));
+        }
         if self.rich {
             s.push_str(&format!("defset list<K_{k}> S_{k} = {{{e}  def : K_{k} {{{e}    let x = 3;{e}  }}{e}  def N_{k} : K_{k};{e}}}{e}"));
             s.push_str(&format!("class M_{k}<int p,{e}          int q> {{{e}  int y = p;{e}}}{e}"));
@@ -292,6 +305,7 @@ pub fn gen_text(rng: &mut Rng, vs: &mut Versions, key: &str, includable: &[&str]
         dotted: rng.chance(1, 6),
         trail: rng.chance(1, 5),
         no_final_eol: rng.chance(1, 5),
+        pp: cfg.eol == Eol::Lf && rng.chance(1, 3),
     }
 }
 
@@ -299,7 +313,8 @@ pub fn gen_text(rng: &mut Rng, vs: &mut Versions, key: &str, includable: &[&str]
 pub fn edit_text(rng: &mut Rng, vs: &mut Versions, prev: &TextSpec, includable: &[&str], cfg: &GenCfg) -> TextSpec {
     let mut t = prev.clone();
     t.version = vs.next();
-    match rng.below(12) {
+    match rng.below(13) {
+        12 => t.pp = cfg.eol == Eol::Lf && !t.pp,
         11 => t.no_final_eol = !t.no_final_eol,
         10 => t.trail = !t.trail,
         9 => t.dotted = !t.dotted,
@@ -681,7 +696,10 @@ pub fn gen_overlay(rng: &mut Rng, removed_variant: bool) -> Scenario {
                 spec.uses.push(n.to_string());
             }
         }
-        b.disk.insert(path_of_key(k), FileState::Text(spec.render()));
+        // now and then a document is new: it exists in the editor only, not (yet) on disk
+        if *k == "a" || !rng.chance(1, 4) {
+            b.disk.insert(path_of_key(k), FileState::Text(spec.render()));
+        }
         b.specs.insert(k.to_string(), spec);
     }
     let disk0 = b.disk.clone();
